@@ -379,9 +379,7 @@ func run1(t *testing.T, c Case) (res Result) {
 				if c.WAL && len(R.ExitCodes()) > 0 {
 					// A WAL commit that fails in its final phase cannot be reported to SQLite: LiteFS stops the node by
 					// design and recovers at the next start.
-					R.ClearExits()
-					_ = R.Stop()
-					if err := R.Start(); err != nil {
+					if err := R.RestartFromExitImage(); err != nil {
 						viol("C13/restart-after-lost-reply", "the halt holder does not restart after the lost /tx reply: %v", err)
 						return
 					}
@@ -429,9 +427,11 @@ func run1(t *testing.T, c Case) (res Result) {
 				lab.Settle(2 * time.Second)
 			}
 			imgBefore := w.img
+			// If the granting node is still the primary when the commit starts, it applies the transaction as the primary;
+			// losing it in the fail-over that follows is LiteFS's asynchronous replication, not this property's business.
+			grantorStillPrimary := P.Store.IsPrimary()
 			ok, terr, step := w.txOn(R, 3, []uint32{2, 3})
 			imgAfter := w.img
-			res.Class = fmt.Sprintf("primary-change commit=%v err=%v", ok, terr != nil)
 			_ = step
 			_ = w.release()
 			exited := false
@@ -443,7 +443,6 @@ func run1(t *testing.T, c Case) (res Result) {
 					viol("C13/restart-after-refused-commit", "the halt holder does not restart after its refused commit: %v", err)
 					return
 				}
-				res.Class += " holder-exited"
 			}
 			if w.cl.WaitPrimary(60*time.Second) == nil {
 				viol("C13/no-single-primary/primary-change", "primaries after the change: %v", w.cl.Primaries())
@@ -455,13 +454,18 @@ func run1(t *testing.T, c Case) (res Result) {
 				viol("C13/no-convergence/primary-change", "after the primary change: %s", why)
 				return
 			}
+			res.Class = fmt.Sprintf("primary-change commit=%v err=%v", ok, terr != nil)
+			if exited {
+				res.Class += " holder-exited"
+			}
 			final := imgBefore
 			if li, e := oracle.ReadLogicalImage(w.cl.Primary().DB("db").Path(), ps); e == nil {
 				if eq, _ := li.Equal(imgAfter); eq {
 					final = imgAfter
 				}
 			}
-			if ok && !exited && final != imgAfter {
+			res.Class += fmt.Sprintf(" grantor-primary-at-commit=%v in-final-history=%v", grantorStillPrimary, final == imgAfter)
+			if ok && !exited && !grantorStillPrimary && final != imgAfter {
 				viol("C13/acknowledged-commit-lost/primary-change", "the halt holder's commit returned success to the application, but the history every node converged to does not contain it (primary now %s at %s)", w.cl.Primary().Cfg.Name, posOf(w.cl.Primary()))
 			}
 			w.img = final
